@@ -217,6 +217,13 @@ class Type2Tag(Tag):
             self._ndef_tlv_offset = offset
             self._tag_memory = tag_memory
             self._skip_bytes = skip_bytes
+            if ndef is not None:
+                # the message must fit between the tlv header and the end
+                # of the data area, not counting reserved and lock bytes
+                room = len(set(range(offset, raw_capacity + 16)) - skip_bytes)
+                if len(ndef) > room - (2 if len(ndef) < 255 else 4):
+                    log.debug("ndef message tlv exceeds the data area")
+                    return None
             return ndef
 
         def _write_ndef_data(self, data):
